@@ -33,6 +33,29 @@ def check_orders(tier):
         if got != want:
             vio.append({"what": f"legal_iteration_orders({''.join(l['modes'])}) = {got}, specified {want}",
                         "key": {"clause": "legal-iteration-orders", "modes": "".join(l["modes"])}, "check": "structure", "case": l})
+        # which of them an append-only OUTPUT may use (only when the tree has such a filter; its absence is not judged)
+        import tensora.desugar._to_iteration_graphs as tig
+
+        flt = getattr(tig, "target_layers_in_order", None)
+        if flt is not None and len(modes) > 0:
+            from tensora.iteration_graph import iteration_graph as ig
+            from tensora.iteration_graph.identifiable_expression import TensorLayer
+            from tensora.iteration_graph.identifiable_expression import ast as ie
+
+            names = [f"x{i}" for i in range(len(modes))]
+            tensor = ie.Tensor("0_a", "a", tuple(names), modes)
+            layers = {names[i]: TensorLayer(tensor, i) for i in range(len(modes))}
+            allowed = []
+            for o in legal_iteration_orders(fmt):
+                g = ig.TerminalNode(tensor)
+                for i in reversed(o):
+                    g = ig.IterationNode(names[i], None, next=g)
+                if flt(g, layers):
+                    allowed.append(tuple(o))
+            want_out = sorted(tuple(o) for o in l["output"])
+            if sorted(allowed) != want_out:
+                vio.append({"what": f"output iteration orders for modes {''.join(l['modes'])}: the tree allows {sorted(allowed)}, specified {want_out}",
+                            "key": {"clause": "output-iteration-orders", "modes": "".join(l["modes"])}, "check": "structure", "case": l})
     return vio, r, len(r.lines)
 
 
